@@ -32,6 +32,7 @@ def handle (line : String) : String :=
     match fromHex h with
     | some src => obsParse src
     | none => "BADLINE"
+  | ["render", env, src, feeder] => obsRender env src feeder
   | _ => "BADLINE"
 
 partial def loop (hin hout : IO.FS.Stream) : IO Unit := do
